@@ -366,6 +366,7 @@ func (m *Manager) manageStreams() {
 // manageStream watches the context and the stream and returns when the stream
 // is finished, canceling the stream if the context is canceled.
 func (m *Manager) manageStream(ctx context.Context, stream *drpcstream.Stream) {
+	drpcdebug.Point("manager.manageStream.enter")
 	select {
 	case <-m.sigs.term.Signal():
 		err := m.sigs.term.Err()
